@@ -82,6 +82,17 @@ func genC14(t *rapid.T) C14Case {
 	return c
 }
 
+// scribble overwrites a byte slice the way a caller reusing its buffer would.
+func scribble(b []byte) {
+	for i := range b {
+		if i%2 == 0 {
+			b[i] = '\n'
+		} else {
+			b[i] = 'Z'
+		}
+	}
+}
+
 // field abstracts over EventID / EventType.
 type field interface {
 	IsSet() bool
@@ -208,11 +219,15 @@ func checkC14(t *testing.T, c C14Case) *stats.Verdict {
 			return v.Failf("", "%s(%q): panicked=%v, want %v", map[bool]string{true: "ID", false: "Type"}[isID], in, panicked, multiLine(in))
 		}
 	case "text":
-		err = ptr.UnmarshalText([]byte(in))
+		buf := []byte(in)
+		err = ptr.UnmarshalText(buf)
+		scribble(buf) // the caller owns (and reuses) its buffer
 		got = cur()
 	case "json":
 		doc := jsonDoc(in, c.JSONStyle)
-		err = ptr.UnmarshalJSON([]byte(doc))
+		buf := []byte(doc)
+		err = ptr.UnmarshalJSON(buf)
+		scribble(buf)
 		got = cur()
 		var any interface{}
 		if jerr := json.Unmarshal([]byte(doc), &any); jerr != nil {
@@ -244,6 +259,10 @@ func checkC14(t *testing.T, c C14Case) *stats.Verdict {
 			src, decodedOK = time.Unix(0, 0), false
 		}
 		err = ptr.Scan(src)
+		if b, ok := src.([]byte); ok {
+			scribble(b) // database drivers reuse the row buffer after Scan returned
+			v.Class("scan-bytes-then-buffer-reused")
+		}
 		got = cur()
 		v.Class(fmt.Sprintf("scankind:%d", c.ScanKind))
 	case "msg":
